@@ -37,6 +37,8 @@ class Job:
         # checks located in functions whose name contains this string are not believed (TBMC: the first
         # pass of the first thread runs against a guess that the other thread has not accepted yet)
         self.ignorefn = meta.get("ignorefn", "")
+        # harness dedicated to one property: every failed check in it (whatever its tag) violates that property
+        self.owner = [p for p in meta.get("owner", "").split(",") if p]
         self.stubs = meta.get("stubbing", "0") == "1"
         self.extra = [a for a in meta.get("kani_args", "").split(",") if a]
         # a documented panic that MUST be reported as failed check (e.g. chunk size zero)
@@ -256,7 +258,7 @@ def classify(res, prop):
             n_expected_panics += 1
             continue
         if tg:
-            (out["relevant"] if prop in tg else out["other_failed"]).append(c)
+            (out["relevant"] if (prop in tg or prop in job.owner) else out["other_failed"]).append(c)
         elif cat == "unwind":
             if in_repo(c):
                 # a loop of the crate does not terminate within the bound: progress (C09)
@@ -351,8 +353,13 @@ def run_replay_dir(rdir, quiet=False):
                "--nocapture"]
         # the test lives in module `mod`; --exact needs the full path
         cmd[-3] = f"{meta['mod']}::{meta['test']}"
-        rc, to, wall = run_cmd(cmd, env, crate, log, 600, 16)
+        rc, to, wall = run_cmd(cmd, env, crate, log, 300, 16)
         text = open(log, errors="replace").read()
+        if to and meta.get("property") == "C09" and "running 1 test" in text:
+            # the native run does not terminate: for the progress property that IS the reproduction
+            detail[prof] = {"rc": rc, "ran": True, "hung": True, "log": log}
+            reproduced = True
+            continue
         want = meta.get("expect_text", "")
         ran = "running 1 test" in text
         failed = ran and ("test result: FAILED" in text or rc != 0)
